@@ -142,10 +142,12 @@ def _check_target(t: str, exp, fails, sig, brief, absolute_prefix=None):
         fails.append(Failure("target", {**sig, "what": "query"}, f"request target query {q!r} does not mean {want_q!r}: {brief()}"))
 
 
-def run_one(url: str, route: str, w, net, pm, exp, fails, sig, brief, via_redirect=False, headers=None):
+def run_one(url: str, route: str, w, net, pm, exp, fails, sig, brief, via_redirect=False, headers=None, rpol="default"):
     import urllib3
 
     hkw = {} if headers is None else {"headers": headers}
+    # the retry policy under which the redirect is followed: default header-stripping set | empty set | a plain int
+    rpolicy = {"default": urllib3.Retry(total=3, redirect=2), "rm-empty": urllib3.Retry(total=3, redirect=2, remove_headers_on_redirect=[]), "int": 3}[rpol]
 
     n_log, n_dials = len(w.log), len(net.dials)
     err = None
@@ -153,7 +155,7 @@ def run_one(url: str, route: str, w, net, pm, exp, fails, sig, brief, via_redire
         if via_redirect:
             # the URL under test is reached through a redirect from http://start.test/ (same checks on the second request)
             w.redirect_to = url
-            r = pm.request("GET", "http://start.test/redir", retries=urllib3.Retry(total=3, redirect=2), redirect=True, **hkw)
+            r = pm.request("GET", "http://start.test/redir", retries=rpolicy, redirect=True, **hkw)
         else:
             r = pm.request("GET", url, retries=False, redirect=False, **hkw)
         r.data
@@ -246,7 +248,7 @@ def run_one(url: str, route: str, w, net, pm, exp, fails, sig, brief, via_redire
 def run_case(case) -> list[Failure]:
     import urllib3
 
-    if case.get("kind") != "url" or case.get("route") not in ROUTES or not isinstance(case.get("via_redirect", False), bool) or case.get("prior") not in PRIORS:
+    if case.get("kind") != "url" or case.get("route") not in ROUTES or not isinstance(case.get("via_redirect", False), bool) or case.get("prior") not in PRIORS or case.get("rpol", "default") not in ("default", "rm-empty", "int"):
         raise core.InvalidCase
     c = case["c"]
     if not isinstance(c, dict) or c.get("scheme") not in SCHEMES + [s.swapcase() for s in SCHEMES] or not isinstance(c.get("host"), str) or not c["host"]:
@@ -321,7 +323,7 @@ def run_case(case) -> list[Failure]:
                 raise core.InvalidCase  # a Location header carries ASCII only
             if via:
                 sig = {**sig, "via_redirect": True}
-            e1 = run_one(url, route, w, net, pm, exp, fails, sig, brief, via_redirect=via, headers=shared)
+            e1 = run_one(url, route, w, net, pm, exp, fails, sig, brief, via_redirect=via, headers=shared, rpol=case.get("rpol", "default"))
             if via:
                 return _done(fails, w, sig, brief)
             if e1 is not None and not fails:
@@ -397,7 +399,7 @@ def enum_cases(tier):
             k += 1
             yield _mk(scheme, USERINFO[k % len(USERINFO)], host, port, PATHS[k % len(PATHS)], QUERIES[k % len(QUERIES)], FRAGS[k % len(FRAGS)], route)
             if port in (None, "8080", "default") and scheme in ("http", "https") and build_url({"scheme": scheme, "host": host, "path": PATHS[k % len(PATHS)], "query": QUERIES[k % len(QUERIES)]}).isascii():
-                yield dict(_mk(scheme, None, host, port, PATHS[k % len(PATHS)], QUERIES[k % len(QUERIES)], None, route), via_redirect=True)
+                yield dict(_mk(scheme, None, host, port, PATHS[k % len(PATHS)], QUERIES[k % len(QUERIES)], None, route), via_redirect=True, rpol=("default", "rm-empty", "int")[(k + k // 3) % 3])
             if port in (None, "8080") and scheme in ("http", "https"):
                 # the manager (with manager-level headers, or a header mapping the caller reuses) has just served another origin
                 yield dict(_mk(scheme, None, host, port, PATHS[k % len(PATHS)], QUERIES[k % len(QUERIES)], None, route), prior=(("mgr-headers", "shared-dict", "proxy-headers-tunnel")[k % 3] if route != "direct" else ("mgr-headers", "shared-dict")[k % 2]), via_redirect=bool(k % 3 == 0) and build_url({"scheme": scheme, "host": host, "path": PATHS[k % len(PATHS)], "query": QUERIES[k % len(QUERIES)]}).isascii())
@@ -412,15 +414,17 @@ def enum_cases(tier):
 def _hyp():
     from hypothesis import strategies as st
 
-    def mk(scheme, ui, host, port, path, query, frag, r, prior):
+    def mk(scheme, ui, host, port, path, query, frag, r, prior, via):
         c = _mk(scheme, ui, host, port, path, query, frag, routes_for(scheme)[r])
+        if via is not None and build_url(c["c"]).isascii():
+            c.update(via_redirect=True, rpol=via)
         if prior is not None and not (prior == "proxy-headers-tunnel" and c["route"] == "direct"):
             c["prior"] = prior
         return c
 
     return st.builds(mk, st.sampled_from(SCHEMES), st.sampled_from(USERINFO), st.sampled_from(HOSTS), st.sampled_from(PORTS),
                      st.one_of(st.sampled_from(PATHS), st.lists(st.sampled_from(["a", "b c", "..", ".", "", "%41", "é", "x;y", "a\\b", "~", "%zz"]), min_size=1, max_size=5).map(lambda l: "/" + "/".join(l))),
-                     st.sampled_from(QUERIES), st.sampled_from(FRAGS), st.integers(0, 2), st.sampled_from([None, None, "mgr-headers", "shared-dict", "proxy-headers-tunnel"]))
+                     st.sampled_from(QUERIES), st.sampled_from(FRAGS), st.integers(0, 2), st.sampled_from([None, None, "mgr-headers", "shared-dict", "proxy-headers-tunnel"]), st.sampled_from([None, None, None, "default", "rm-empty", "int"]))
 
 
 def shards(tier, seed):
